@@ -1,6 +1,7 @@
 import LenaModel.DriverUtil
 import LenaModel.Model.C19
 import LenaModel.Model.C19Spec
+import LenaModel.Model.C19Ext
 /-! Model driver for C19 (contents = `Content`, converters = `stubConv`).  Requests:
 
   {"op":"mf","args":MF,"name":s|null,"out":O}                      -> {"out":O,"modified":b} | {"e":E,"phase":"init"}
@@ -18,6 +19,15 @@ import LenaModel.Model.C19Spec
         (reuse: one pipeline object for all runs; R then carries "tplm", the modification time of the template file)
   {"op":"render","tpl":n,"data":D,"out":O,"group":[O]|null}          -> {"vals":[{"data":D,"out":O,"group":..}]}   RenderLaTeX.run on one value
   {"op":"render2","tpls":[[t,m],..]}                               -> {"r":[t..]}  templates rendered by ONE RenderLaTeX
+
+  {"op":"mfseq","args":MF,"static":s|null,"vals":[{"name":s|null,"out":O}]} -> {"outs":[{"out":O,"modified":b}]} | {"e":E,"phase":"init"}
+        ONE MakeFilename object with a static context called for the values one after the other (mfObjRun)
+  {"op":"renderflow","default":s,"runs":[{"dir":{name:[t,m]},"flow":[{"ft":s|null,"path":p,"tpl":s|null}]}]}
+        -> {"runs":[{"vals":[CT|null]} | {"e":E}]}   ONE RenderLaTeX object, several runs (renderRun; null: passed unchanged)
+  {"op":"tocsv","dup":b,"header":s|null,"flow":[{"to_csv":b|null,"ctx_dup":b|null,"edges":[i],"bins":[i]}]}
+        -> {"outs":[null | {"header":s|null,"rows":[[x,b]]}]}   ONE ToCSV object on a flow of 1-dim histograms (toCsvRun)
+  "latexrun" values may carry "rc":i (return code of the launch) instead of "ok" (schedOfRc);
+  R may carry "static":s|null (the Sequence has the static context {"name": s}: runSpecStatic)
 
   O = {"filename","dirname","fileext","filetype","prefix","suffix","filepath","changed"} (null = absent)
   MF = {"filename","dirname","fileext","prefix","suffix": T|null, "overwrite":b}; T = [s|null] (null = {{name}})
@@ -208,6 +218,15 @@ def runSpec? (j : Json) : Option RunSpec := do
   return { cfg := { outdir := outdir, w1 := w1, w2 := w2, lo := lo, po := po, mf := mf, gmf := gmf },
            layout := layout, tpl := tpl, plots := pls }
 
+/-- the static context of the run's `Sequence` (`"static"`, absent = none) -/
+def static? (j : Json) : Option String := str? (getD j "static")
+
+/-- the run as the `MakeFilename`s see it: plots named through the static context where they have no name -/
+def withStaticOf (rj : Json) (r : RunSpec) : RunSpec :=
+  match static? rj with
+  | some s => { r with plots := r.plots.map (Plot.withStatic (some s)) }
+  | none => r
+
 /-- the specification side of one run (`Model/C19Spec.lean`): the resolved units, `SourceClosed` of every unit at
 the start, `UnitFresh` of every unit at the end, and whether `specRun` (names first, then the bookkeeping
 `sepCore` / `grpCore`) ends in the same world as the element-by-element pipeline -/
@@ -264,12 +283,20 @@ def histLoop (reuse : Bool) (watch : List String) : PipeState → World Content 
               match runSpecI stubConv w0 { r with tpl := g.1 } late with
               | .error e => .error e
               | .ok (w', vs) => .ok (w', vs, if r.plots.isEmpty then st0 else g.2)
-            else runObject stubConv st0 w0 r f
+            else
+              match static? rj with
+              | some sname =>
+                -- a Sequence with a static context (`runSpecStatic`); the template comes through the cache as in `runObject`
+                let g := getTemplate st0 f
+                match runSpecStatic stubConv w0 (some sname) { r with tpl := g.1 } with
+                | .error e => .error e
+                | .ok (w', vs) => .ok (w', vs, if r.plots.isEmpty then st0 else g.2)
+              | none => runObject stubConv st0 w0 r f
           match res with
           | .error e => some ((ofExc e :: acc).reverse, none)  -- the history stops at an exception
           | .ok (w', vs, st') =>
             let watch' := (watch ++ pathsOfLog w'.log).eraseDups
-            let r' : RunSpec := { r with tpl := (getTemplate (if reuse then st else {}) f).1 }
+            let r' : RunSpec := withStaticOf rj { r with tpl := (getTemplate (if reuse then st else {}) f).1 }
             let out := (ofResult watch' w0.clock w' vs).setObjVal! "spec"
               (if interrupted then Json.null else specJson watch' w0 w' r')
             histLoop reuse watch' st' w' rest (out :: acc)
@@ -292,7 +319,7 @@ def ostepsOf : Nat → List Json → Option (List OStep)
         | some r =>
           let m' := (nat? (getD rj "tplm")).getD 0
           let ed : List OStep := if m' = m then [] else [.edit r.tpl]
-          (ostepsOf m' rest).map (dels ++ ed ++ [.run r] ++ ·)
+          (ostepsOf m' rest).map (dels ++ ed ++ [.run (withStaticOf rj r)] ++ ·)
 
 /-- file systems agree on the paths, clocks agree (the logs of `exec`/`oexec` run over the whole history) -/
 def fsAgree (paths : List String) (a b : World Content) : Bool :=
@@ -351,9 +378,11 @@ def handle (j : Json) : Json :=
       let flow := vals.toList.mapM fun x => do
         let dt ← data? (getD x "data")
         let o ← outCtx? (getD x "out")
-        let ok ← bool? (getD x "ok")
         let fin ← nat? (getD x "fin")
-        pure (({ data := dt, name := none, out := o, group := none } : Val Content), ({ ok := ok, fin := fin } : Sched))
+        let sc ← match int? (getD x "rc") with
+          | some rc => some (schedOfRc rc fin)
+          | none => (bool? (getD x "ok")).map fun ok => ({ ok := ok, fin := fin } : Sched)
+        pure (({ data := dt, name := none, out := o, group := none } : Val Content), sc)
       match flow with
       | none => err "bad latexrun vals"
       | some flow =>
@@ -427,6 +456,58 @@ def handle (j : Json) : Json :=
     match outCtx? (getD j "ctx"), (arr? (getD j "new")).bind (fun a => a.toList.mapM outCtx?), outCtx? (getD j "old") with
     | some o, some ns, some old => Json.mkObj [("out", ofOutCtx (updateWithGroup o ns old))]
     | _, _, _ => err "bad uwg args"
+  | some "mfseq" =>
+    match mfArgs? (getD j "args"), (arr? (getD j "vals")).bind (fun a => a.toList.mapM fun x =>
+        (optStr? (getD x "name")).bind fun n => (outCtx? (getD x "out")).map fun o => (n, o)) with
+    | some a, some vals =>
+      match mfInit a with
+      | .error e => Json.mkObj [("e", excName e), ("phase", "init")]
+      | .ok ms =>
+        let rs := mfObjRun { overwrite := a.overwrite, ms := ms, static := static? j } vals
+        Json.mkObj [("outs", ofList (fun (r : OutCtx × Bool) => Json.mkObj [("out", ofOutCtx r.1), ("modified", r.2)]) rs)]
+    | _, _ => err "bad mfseq args"
+  | some "renderflow" =>
+    match str? (getD j "default"), arr? (getD j "runs") with
+    | some dflt, some runs =>
+      let dirOf (d : Json) : TplDir := fun name =>
+        match arr? (getD d name) with
+        | some p => (nat? (p.getD 0 Json.null)).bind fun t => (nat? (p.getD 1 Json.null)).map fun m => (⟨t, m⟩ : TplFile)
+        | none => none
+      let flowOf (fl : Json) : Option (List (Val Content × Option String)) :=
+        (arr? fl).bind fun a => a.toList.mapM fun x => do
+          let ft ← optStr? (getD x "ft")
+          let p ← str? (getD x "path")
+          let ct ← optStr? (getD x "tpl")
+          pure (({ data := .path p, name := none, out := { filetype := ft, filepath := some p }, group := none } : Val Content), ct)
+      let rec go (st : EnvState) (rs : List Json) (acc : List Json) : List Json :=
+        match rs with
+        | [] => acc.reverse
+        | r :: rest =>
+          match flowOf (getD r "flow") with
+          | none => (err "bad renderflow flow" :: acc).reverse
+          | some flow =>
+            match renderRun stubConv dflt (dirOf (getD r "dir")) st flow with
+            | .error e => (ofExc e :: acc).reverse          -- the object is not used after an exception
+            | .ok (vs, st') =>
+              let one (v : Val Content) : Json := match v.data with
+                | .text c => ofContent c
+                | _ => Json.null
+              go st' rest (Json.mkObj [("vals", ofList one vs)] :: acc)
+      Json.mkObj [("runs", Json.arr (go {} runs.toList []).toArray)]
+    | _, _ => err "bad renderflow args"
+  | some "tocsv" =>
+    match bool? (getD j "dup"), optStr? (getD j "header"), (arr? (getD j "flow")).bind (fun a => a.toList.mapM fun x => do
+        let tc ← optBool? (getD x "to_csv")
+        let cd ← optBool? (getD x "ctx_dup")
+        let edges ← intList? (getD x "edges")
+        let bins ← intList? (getD x "bins")
+        pure (tc, cd, edges, bins)) with
+    | some dup, some header, some flow =>
+      let one : CsvOut → Json
+        | .passed => Json.null
+        | .csv h rows => Json.mkObj [("header", ofOptStr h), ("rows", ofList (fun (r : Int × Int) => ofIntList [r.1, r.2]) rows)]
+      Json.mkObj [("outs", ofList one (toCsvRun { dup := dup, header := header } flow))]
+    | _, _, _ => err "bad tocsv args"
   | some "hist" =>
     match arr? (getD j "steps") with
     | some steps =>
